@@ -3569,6 +3569,13 @@ func (p *Posix) DeleteObject(ctx context.Context, input *s3.DeleteObjectInput) (
 		}
 	}
 
+	// no versions are kept for this key (versioning was never configured
+	// for the bucket, or the key is a directory object): the object is its
+	// own and only version, "null". Any other id names no version of it.
+	if vid := getString(input.VersionId); vid != "" && vid != nullVersionId {
+		return nil, s3err.GetAPIError(s3err.ErrInvalidVersionId)
+	}
+
 	fi, err := os.Stat(objpath)
 	if errors.Is(err, syscall.ENAMETOOLONG) {
 		return nil, s3err.GetAPIError(s3err.ErrKeyTooLong)
